@@ -347,14 +347,17 @@ class SmtDagPrinter(DagWalker):
 
         # Deal with quantifiers
         if formula.is_quantifier():
-            # 1. We invoke the relevant function (walk_exists or
-            #    walk_forall) to print the formula
-            fun = self.functions[formula.node_type()]
-            res = fun(formula, args=None, **kwargs)
-
-            # 2. We memoize the result
             key = self._get_key(formula, **kwargs)
-            self.memoization[key] = res
+            # The same node can be on the stack more than once (it
+            # is pushed by every parent visited before it is printed)
+            if key not in self.memoization:
+                # 1. We invoke the relevant function (walk_exists or
+                #    walk_forall) to print the formula
+                fun = self.functions[formula.node_type()]
+                res = fun(formula, args=None, **kwargs)
+
+                # 2. We memoize the result
+                self.memoization[key] = res
         else:
             DagWalker._push_with_children_to_stack(self, formula, **kwargs)
 
